@@ -36,6 +36,9 @@ public:
     inline unordered_map();
     unordered_map(const unordered_map &) = delete;
     unordered_map &operator=(const unordered_map &) = delete;
+    inline unordered_map(unordered_map &&o);                 // takes o's elements, o becomes empty
+    inline unordered_map &operator=(unordered_map &&o);
+    void swap(unordered_map &o) { Tbl *x = t; t = o.t; o.t = x; }
     inline ~unordered_map();
 
     iterator end() const { return iterator { this, VP_MAP_CAP }; }
